@@ -730,6 +730,10 @@ func (s *SecureChannel) handleOpenSecureChannelResponse(resp *ua.OpenSecureChann
 
 	s.activeInstance = instance
 
+	// a token that outlived its grace period while it was still the active
+	// one goes now that it has been replaced
+	s.dropExpiredInstances(resp.SecurityToken.ChannelID)
+
 	verifPoint("open.installed", s, "chan", instance.secureChannelID, "tok", instance.securityTokenID, "lifetime", instance.revisedLifetime, "created", instance.createdAt)
 	debug.Printf("uasc %d: received security token. channelID=%d tokenID=%d createdAt=%s lifetime=%s", s.c.ID(), instance.secureChannelID, instance.securityTokenID, instance.createdAt.Format(time.RFC3339), instance.revisedLifetime)
 
@@ -925,23 +929,26 @@ func (s *SecureChannel) scheduleExpiration(instance *channelInstance) {
 	defer s.instancesMu.Unlock()
 
 	verifPoint("expire.run", s, "tok", instance.securityTokenID, "chan", instance.secureChannelID)
-	oldInstances := s.instances[instance.securityTokenID]
+	instance.expired = true
+	s.dropExpiredInstances(instance.secureChannelID)
+}
 
-	s.instances[instance.securityTokenID] = []*channelInstance{}
-
+// dropExpiredInstances removes the channel instances of the given secure
+// channel whose token lifetime (plus grace period) has elapsed. The instances
+// are stored per secure channel id; an instance is identified by itself, not
+// by its token id, since a server may issue the same token id again on
+// renewal. The active instance stays until a renewal has replaced it.
+// instancesMu must be held.
+func (s *SecureChannel) dropExpiredInstances(secureChannelID uint32) {
+	oldInstances := s.instances[secureChannelID]
+	kept := make([]*channelInstance, 0, len(oldInstances))
 	for _, oldInstance := range oldInstances {
-		if oldInstance.secureChannelID != instance.secureChannelID {
-			// something has gone horribly wrong!
-			debug.Printf("uasc %d: secureChannelID mismatch during scheduleExpiration!", s.c.ID())
-		}
-		if oldInstance.securityTokenID == instance.securityTokenID {
+		if oldInstance.expired && oldInstance != s.activeInstance {
 			continue
 		}
-		s.instances[instance.securityTokenID] = append(
-			s.instances[instance.securityTokenID],
-			oldInstance,
-		)
+		kept = append(kept, oldInstance)
 	}
+	s.instances[secureChannelID] = kept
 }
 
 func (s *SecureChannel) sendRequestWithTimeout(
